@@ -135,6 +135,33 @@ def gen_reading(rng, pools, mode):
     return ty, tg.pic_text(toks), tb, clock, words
 
 
+def grid_cases():
+    """Systematic part: every month end (days 0, 1, 28..32) and the day-of-year limits of leap, common and century years,
+    and every hour / minute / second limit — the places a calendar or clock table could be wrong."""
+    clock = "2024 3 15 10 20 30 400000"
+    out = []
+    years = [1, 4, 100, 400, 1900, 2000, 2023, 2024, 9999]
+    for y in years:
+        for m in range(0, 14):
+            for d in (0, 1, 28, 29, 30, 31, 32):
+                out.append(("D", "YYYY-MM-DD", 0, clock, ["n.0.0.0.%d" % y, "p.0", "n.0.0.0.%d" % m, "p.0", "n.0.0.0.%d" % d]))
+        for m in range(1, 13):
+            for d in (28, 29, 30, 31):
+                out.append(("TS", "DD Mon YYYY HH24", 0, clock,
+                            ["n.0.0.0.%d" % d, "b.1", "a.0.%d.1.1" % m, "b.1", "n.0.0.0.%d" % y, "b.1", "n.0.0.0.23"]))
+        for n in (0, 1, 31, 32, 59, 60, 61, 90, 91, 92, 334, 335, 336, 365, 366, 367):
+            out.append(("D", "YYYY DDD", 0, clock, ["n.0.0.0.%d" % y, "b.1", "n.0.0.0.%d" % n]))
+            out.append(("OD", "DDD/YYYY", 0, clock, ["n.0.0.0.%d" % n, "p.0", "n.0.0.0.%d" % y]))
+    for h in range(0, 26):
+        out.append(("T", "HH24:MI:SS", 0, clock, ["n.0.0.0.%d" % h, "p.0", "n.0.0.0.59", "p.0", "n.0.0.0.59"]))
+        for pm in (0, 1):
+            out.append(("T", "HH12 AM", 0, clock, ["n.0.0.0.%d" % h, "b.1", "m.0.%d.11" % pm]))
+    for x in (0, 1, 58, 59, 60, 61):
+        out.append(("T", "HH24:MI:SS", 0, clock, ["n.0.0.0.23", "p.0", "n.0.0.0.%d" % x, "p.0", "n.0.0.0.0"]))
+        out.append(("DT", "DD HH24:MI:SS", 0, clock, ["n.0.1.0.1", "b.1", "n.0.0.0.0", "p.0", "n.0.0.0.0", "p.0", "n.0.0.0.%d" % x]))
+    return out
+
+
 def run(pid, tier, rng, pools, n=None):
     t0 = time.time()
     res = runner.StreamResult("readings: crate parser vs Spec.denote")
@@ -145,6 +172,7 @@ def run(pid, tier, rng, pools, n=None):
         if not words:
             continue
         cases.append((ty, pic, tb, clock, words))
+    cases += grid_cases()
     stage1 = ["R.read %s %s %d %s %s" % (ty, hx(pic), tb, clock, " ".join(words)) for ty, pic, tb, clock, words in cases]
     os.makedirs(runner.TMP, exist_ok=True)
     base = os.path.join(runner.TMP, "readings.%d" % os.getpid())
